@@ -154,6 +154,24 @@ Theorem C08_andn_verify_iff : forall (P : sproto) (count : nat) xs az e zs,
 Proof. exact andn_verify_iff. Qed.
 Print Assumptions C08_andn_verify_iff.
 
+(* sigand (n copies): an accepted transcript has exactly count statements, commitments AND
+   responses; a response or commitment vector with one component more or fewer is rejected *)
+Theorem C08_andn_accept_lengths : forall (P : sproto) (count : nat) xs az e zs,
+  andn_verify P count xs az e zs = true ->
+  length xs = count /\ length az = count /\ length zs = count.
+Proof. exact andn_accept_lengths. Qed.
+Print Assumptions C08_andn_accept_lengths.
+
+Theorem C08_andn_wrong_response_count : forall (P : sproto) (count : nat) xs az e zs,
+  length zs <> count -> andn_verify P count xs az e zs = false.
+Proof. exact andn_wrong_response_count. Qed.
+Print Assumptions C08_andn_wrong_response_count.
+
+Theorem C08_andn_wrong_commitment_count : forall (P : sproto) (count : nat) xs az e zs,
+  length az <> count -> andn_verify P count xs az e zs = false.
+Proof. exact andn_wrong_commitment_count. Qed.
+Print Assumptions C08_andn_wrong_commitment_count.
+
 (* sigor: a proof built with exactly one real witness (branch b) and every other branch
    simulated verifies *)
 Theorem C08_or_complete_one_witness : forall (P : sproto) rel (count b : nat) xs w r sims e xb,
